@@ -302,7 +302,9 @@ func (m *MonChecks) judgePayment(s *Sim, i int, n *c21Note, meta *TxMeta, res *a
 	add(red, n.Gas, new(big.Int))
 	if pool != nil {
 		add(issuer, n.Gas, pool.CreditsTo(issuer.String()))
-		add(red, n.Gas, pool.CreditsTo(red.String()))
+		if red != issuer { // an issuer redeeming its own check: the fill of its own order is credited once
+			add(red, n.Gas, pool.CreditsTo(red.String()))
+		}
 	}
 	judged := map[string]bool{}
 	for k, want := range exp {
